@@ -149,6 +149,9 @@ func fieldWritesFrozen(r *Run, ruleNew, ruleGone string) {
 		}
 		for _, k := range pinned[n] {
 			if _, ok := cur[n][k]; !ok {
+				if P.fieldWriteMovedIntoNewCallee(f, k, pinned) {
+					continue
+				}
 				gone++
 				r.Viol(ruleGone, "field-write-removed:"+n+":"+k, P.Pos(f.Pos()), n+" no longer assigns "+k+" (it did on the pinned tree): the effect it had on that state is gone")
 			}
